@@ -297,9 +297,14 @@ def range_operator_workbook():
     cells that neither operand holds"""
     grid = {f'{"ABC"[c]}{r + 1}': 3 * r + c + 1 for r in range(3) for c in range(3)}
     whole = [f'Sheet1!{a}' for a in grid]
-    formulas = {'E1': '=SUM((A1:B2):C3)', 'E2': '=SUM((C3):A1)', 'E3': '=SUM((A1):B2)+C3', 'E4': '=MAX(($A$1:$A$2):$C$1)'}
+    formulas = {'E1': '=SUM((A1:B2):C3)', 'E2': '=SUM((C3):A1)', 'E3': '=SUM((A1):B2)+C3', 'E4': '=MAX(($A$1:$A$2):$C$1)',
+                # (the parentheses on the right, on both sides, around an intersection)
+                'E5': '=SUM(A1:(B2:C3))', 'E6': '=SUM((A1):(C3))', 'E7': '=MAX((A1:A2):(C1:C2))',
+                'E8': '=SUM(A1:(B2:C3 B1:B3))'}
+    six = ['Sheet1!A1', 'Sheet1!B1', 'Sheet1!C1', 'Sheet1!A2', 'Sheet1!B2', 'Sheet1!C2']
     deps = {'E1': whole, 'E2': whole, 'E3': ['Sheet1!A1', 'Sheet1!B1', 'Sheet1!A2', 'Sheet1!B2', 'Sheet1!C3'],
-            'E4': ['Sheet1!A1', 'Sheet1!B1', 'Sheet1!C1', 'Sheet1!A2', 'Sheet1!B2', 'Sheet1!C2']}
+            'E4': six, 'E5': whole, 'E6': whole, 'E7': six,
+            'E8': ['Sheet1!A1', 'Sheet1!B1', 'Sheet1!A2', 'Sheet1!B2', 'Sheet1!A3', 'Sheet1!B3']}
     spec = {'sheets': [['Sheet1', dict(grid, **formulas)]], 'names': {}, 'arrays': [], 'calc': None}
     meta = {'inputs': whole, 'formulas': {f'Sheet1!{a}': {'form': 'range-operator', 'deps': deps[a]} for a in formulas},
             'order': whole + [f'Sheet1!{a}' for a in formulas]}
